@@ -22,6 +22,7 @@ TStep == /\ l < Len(Traces[tid]) /\ ~Ev.raised
                                          rpin == IF A[5] = -1 THEN FreeIndex(S.nd[r].ins) ELSE A[5]
                                      IN S' = OpNewLine(S, d, dpin, r, rpin) /\ Did(<<"NewLine", A[2], A[3], A[4], A[5]>>)
               [] A[1] = "RemoveLine" -> RemoveLine(LineAt(A[2]))
+              [] A[1] = "RemoveAgain" -> RemoveAgain
               [] A[1] = "RemoveNode" -> S' = OpRemoveNode(S, NodeAt(A[2])) /\ Did(<<"RemoveNode", A[2]>>)
               [] A[1] = "AppendIo" -> S' = [S EXCEPT !.io = Append(@, NodeAt(A[2]))] /\ Did(<<"AppendIo", A[2]>>)
               [] A[1] = "Elim" -> S' = FoldLeft(ElimOne, S, S.forder) /\ Did(<<"Elim">>)
